@@ -725,6 +725,22 @@ func (p *prover) edgeBlock(ph *ssa.Phi, i int, cur *ssa.BasicBlock) *ssa.BasicBl
 	return cur
 }
 
+// backEdgeOK: following the i-th edge of phi ph while the other side of the goal is `other`. Across a back edge the
+// SSA names of values defined inside the loop denote the previous round's instances, so facts about them say nothing
+// about this round's: induction over a loop-carried value is accepted only against something defined outside the loop.
+func (p *prover) backEdgeOK(ph *ssa.Phi, i int, other term) bool {
+	pb := ph.Block()
+	if i >= len(pb.Preds) || !pb.Dominates(pb.Preds[i]) {
+		return true // not a back edge
+	}
+	in, ok := other.v.(ssa.Instruction)
+	if other.v == nil || !ok {
+		return true // constant, parameter, free variable, global
+	}
+	db := in.Block()
+	return db != nil && db != pb && db.Dominates(pb)
+}
+
 func (p *prover) canonT(t term) term {
 	if t.v != nil {
 		if r, ok := p.vn[t.v]; ok {
@@ -1296,7 +1312,7 @@ func (p *prover) proveDefUpper(a, b term, c int64, blk *ssa.BasicBlock, depth in
 		defer func() { p.phiSteps-- }()
 		for i, e := range x.Edges {
 			te, oe := p.norm(e)
-			if !p.prove(te, b, c-oe, p.edgeBlock(x, i, blk), depth+1) {
+			if !p.backEdgeOK(x, i, b) || !p.prove(te, b, c-oe, p.edgeBlock(x, i, blk), depth+1) {
 				return false
 			}
 		}
@@ -1410,7 +1426,7 @@ func (p *prover) proveDefLower(a, b term, c int64, blk *ssa.BasicBlock, depth in
 		defer func() { p.phiSteps-- }()
 		for i, e := range x.Edges {
 			te, oe := p.norm(e)
-			if !p.prove(a, te, c+oe, p.edgeBlock(x, i, blk), depth+1) {
+			if !p.backEdgeOK(x, i, a) || !p.prove(a, te, c+oe, p.edgeBlock(x, i, blk), depth+1) {
 				return false
 			}
 		}
@@ -1539,8 +1555,10 @@ func (p *prover) proveLenUpper(a, b term, c int64, blk *ssa.BasicBlock, depth in
 			return p.prove(zeroT, b, c-n, blk, depth+1)
 		}
 	case *ssa.Phi:
-		for _, e := range x.Edges {
-			if !p.prove(term{canonLenOperand(e), true}, b, c, blk, depth+1) {
+		p.phiSteps++
+		defer func() { p.phiSteps-- }()
+		for i, e := range x.Edges {
+			if !p.backEdgeOK(x, i, b) || !p.prove(term{canonLenOperand(e), true}, b, c, p.edgeBlock(x, i, blk), depth+1) {
 				return false
 			}
 		}
@@ -1592,8 +1610,10 @@ func (p *prover) proveLenLower(a, b term, c int64, blk *ssa.BasicBlock, depth in
 			return p.prove(a, zeroT, c+n, blk, depth+1)
 		}
 	case *ssa.Phi:
-		for _, e := range x.Edges {
-			if !p.prove(a, term{canonLenOperand(e), true}, c, blk, depth+1) {
+		p.phiSteps++
+		defer func() { p.phiSteps-- }()
+		for i, e := range x.Edges {
+			if !p.backEdgeOK(x, i, a) || !p.prove(a, term{canonLenOperand(e), true}, c, p.edgeBlock(x, i, blk), depth+1) {
 				return false
 			}
 		}
@@ -1740,6 +1760,14 @@ func (p *prover) risky(v ssa.Value, classP map[ssa.Value]bool) string {
 			}
 			return
 		case *ssa.Extract:
+			if nx, ok := x.Tuple.(*ssa.Next); ok && !nx.IsString && x.Index == 1 {
+				if rg, ok := nx.Iter.(*ssa.Range); ok {
+					if _, isMap := rg.X.Type().Underlying().(*types.Map); isMap {
+						why = "M: key of a map (whatever number was stored as a key)"
+						return
+					}
+				}
+			}
 			walk(x.Tuple, depth+1)
 		case *ssa.BinOp:
 			switch x.Op {
